@@ -739,6 +739,15 @@ func (r *Raft) leaderLoop() {
 		case <-r.leaderState.stepDown:
 			r.mainThreadSaturation.working()
 			r.setState(Follower)
+			// Adopt the term that deposed us. Otherwise the next election
+			// is held just one term up, its winner is deposed by the same
+			// peer again, and the cluster climbs to that peer's term one
+			// election at a time.
+			for _, repl := range r.leaderState.replState {
+				if t := atomic.LoadUint64(&repl.newerTerm); t > r.getCurrentTerm() {
+					r.setCurrentTerm(t)
+				}
+			}
 
 		case future := <-r.leadershipTransferCh:
 			r.mainThreadSaturation.working()
